@@ -19,7 +19,7 @@ def hexOf (o : Order) (n X : Nat) : String := if n == 0 then "" else toHex (toBy
 def showVal (k : Cls) (r : Row) (v : Nat) : String :=
   match r.kind with
   | .num => toString v
-  | .bytes => "x" ++ hexOf k.order (r.spec.width / 8) v
+  | .bytes => "x" ++ hexOf k.order (r.valWidth / 8) v
 
 def parseVal (k : Cls) (s : String) : Option Nat :=
   if s.startsWith "x" then (parseHex (s.drop 1).toString).map (ofBytes k.order) else s.toNat?
